@@ -16,7 +16,8 @@ import time
 
 VERIF = os.path.dirname(os.path.dirname(os.path.abspath(__file__)))
 REPO = os.environ.get("VERIF_REPO", "/repo")
-HARNESS = os.path.join(VERIF, "harness")
+HARNESS = os.environ.get("VERIF_HARNESS", os.path.join(VERIF, "harness"))
+TARGET_BASE = os.environ.get("VERIF_TARGET_BASE", os.path.join(VERIF, "target"))
 GUARD = "warcraft_rs_verif"
 NCPU = max(1, min(16, os.cpu_count() or 1))
 
@@ -39,7 +40,7 @@ def cargo_env(extra_rustflags="", target_dir=None):
     if extra_rustflags:
         flags += " " + extra_rustflags
     env["RUSTFLAGS"] = flags
-    env["CARGO_TARGET_DIR"] = target_dir or os.path.join(VERIF, "target")
+    env["CARGO_TARGET_DIR"] = target_dir or TARGET_BASE
     env.pop("RUSTC_WRAPPER", None)
     return env
 
@@ -52,11 +53,11 @@ def build(pkg, bin_name, flavor="native", quiet=True):
         cmd = ["cargo", "build", "--release", "--offline", "-p", pkg, "--bin", bin_name]
         out = os.path.join(env["CARGO_TARGET_DIR"], "release", bin_name)
     elif flavor == "asan":
-        env = cargo_env("-Zsanitizer=address -Cforce-frame-pointers=yes", os.path.join(VERIF, "target-asan"))
+        env = cargo_env("-Zsanitizer=address -Cforce-frame-pointers=yes", TARGET_BASE + "-asan")
         cmd = ["cargo", "+nightly", "build", "--release", "--offline", "--target", "x86_64-unknown-linux-gnu", "-p", pkg, "--bin", bin_name]
         out = os.path.join(env["CARGO_TARGET_DIR"], "x86_64-unknown-linux-gnu", "release", bin_name)
     elif flavor == "tsan":
-        env = cargo_env("-Zsanitizer=thread", os.path.join(VERIF, "target-tsan"))
+        env = cargo_env("-Zsanitizer=thread", TARGET_BASE + "-tsan")
         cmd = ["cargo", "+nightly", "build", "--release", "--offline", "-Zbuild-std", "--target", "x86_64-unknown-linux-gnu", "-p", pkg, "--bin", bin_name]
         out = os.path.join(env["CARGO_TARGET_DIR"], "x86_64-unknown-linux-gnu", "release", bin_name)
     else:
@@ -399,14 +400,17 @@ def confirm_single(binpath, base_args, tier, seed, idx, scratch, budget, env):
 # ------------------------------------------------------------------ findings
 
 def load_known():
-    path = os.path.join(VERIF, "known_findings.jsonl")
+    """known_findings.jsonl (+ known_findings.d/*.jsonl while checks are being developed); never written at run time."""
+    import glob
+    paths = [os.path.join(VERIF, "known_findings.jsonl")] + sorted(glob.glob(os.path.join(VERIF, "known_findings.d", "*.jsonl")))
     out = []
-    if os.path.exists(path):
-        with open(path) as f:
-            for line in f:
-                line = line.strip()
-                if line and not line.startswith("#"):
-                    out.append(json.loads(line))
+    for path in paths:
+        if os.path.exists(path):
+            with open(path) as f:
+                for line in f:
+                    line = line.strip()
+                    if line and not line.startswith("#"):
+                        out.append(json.loads(line))
     return out
 
 
